@@ -290,12 +290,14 @@ func (d *Device) handleABSEvent(ie *input.InputEvent) {
 			}
 		}
 	case config.AnalogActionSim:
-		if d.checkDoubleActions() {
-			return
-		}
-
 		if !canBeNegative {
 			value = value*2 - 1.0
+		}
+
+		// panic always gets through, as on the key path: a held up/down pair must not turn it into a repetition of the pair's reset
+		panicPushed := (value >= 0.5 && analog.Action == config.Panic) || (value <= -0.5 && analog.ActionNeg == config.Panic)
+		if !panicPushed && d.checkDoubleActions() {
+			return
 		}
 
 		switch {
